@@ -366,6 +366,9 @@ func GenInput(t *rapid.T, o GenOpts) Input {
 
 	if o.Bulk && rapid.IntRange(0, 2).Draw(t, "bulk") == 0 {
 		n := rapid.IntRange(40, 160).Draw(t, "bulk.n")
+		if o.Online {
+			n = 30 + n/4 // every rule costs several queries per server
+		}
 		k := rapid.SampledFrom([]int{0, 3, 3, 5, 6, 7, 4}).Draw(t, "bulk.k")
 		v := rapid.IntRange(0, 11).Draw(t, "bulk.variant")
 		if rapid.Bool().Draw(t, "bulk.spread") {
